@@ -33,4 +33,35 @@ def deliver (snapshot : Bool) (reg : List Nat) (act : Nat â†’ Edit) : List Nat Ã
   if snapshot then (reg, reg.foldl (fun r id => applyEdit r (act id)) reg, false)
   else liveLoop act reg reg []
 
+/-! ### a pilot ends while `TaskManager.submit_tasks` is under way
+
+The application thread creates the tasks of a bulk, enters them into the registry and hands the bulk to the
+scheduler; the pilot update thread delivers the pilot's final state to `_pilot_state_cb`, which scans the registry
+(without the tasks lock).  `handedBefore`: the bulk had reached the scheduler when the callback ran. -/
+
+inductive SubEv where
+  | register | handOver | final
+deriving DecidableEq, Repr
+
+/-- the two steps of the submitting thread in the order the code has them -/
+def submitOrder (registersFirst : Bool) : List SubEv :=
+  if registersFirst then [.register, .handOver] else [.handOver, .register]
+
+/-- the callback runs after `i` steps of the submitting thread -/
+def withFinalAt (l : List SubEv) (i : Nat) : List SubEv := l.take i ++ [.final] ++ l.drop i
+
+structure SubSt where
+  registered   : Bool := false
+  handed       : Bool := false
+  handedBefore : Bool := false      -- when the callback ran the scheduler already had the bulk
+  failed       : Bool := false      -- the callback found the bulk's task of the dead pilot and failed it
+deriving DecidableEq, Repr
+
+def subStep (s : SubSt) : SubEv â†’ SubSt
+  | .register => { s with registered := true }
+  | .handOver => { s with handed := true }
+  | .final    => { s with handedBefore := s.handed, failed := s.registered }
+
+def subRun (evs : List SubEv) : SubSt := evs.foldl subStep {}
+
 end RPVerif.Callbacks
